@@ -62,7 +62,8 @@ type streamSpec struct {
 type item struct {
 	name       string
 	obj        pdf.Object  // a non-stream object, or
-	stream     *streamSpec // a stream
+	stream     *streamSpec // a stream, or
+	embedTitle string      // an XMP packet with this dc:title, written by MetadataStream.Embed through a ResourceManager (component-level metadata)
 	compressed bool        // written through WriteCompressed
 }
 
@@ -70,6 +71,11 @@ type graph struct {
 	items    []item
 	title    string // Info.Title
 	xmpTitle string // dc:title of the document metadata
+
+	// sparseLeak: the leak search looks for the first and the last 24 bytes
+	// of every stream body only (graphs of the stream-length space, whose
+	// bodies add up to hundreds of kilobytes)
+	sparseLeak bool
 }
 
 func allBytes() []byte {
@@ -114,10 +120,44 @@ func fullGraph() *graph {
 			{name: "compressed dict", compressed: true, obj: pdf.Dict{"Os": mstr(12, 0, 24), "Oa": pdf.Array{mstr(12, 1, 24), pdf.Integer(1)}, "Same": sameString}},
 			{name: "compressed array", compressed: true, obj: pdf.Array{mstr(13, 0, 24), pdf.Dict{"Q": mstr(13, 1, 16)}}},
 			{name: "compressed string", compressed: true, obj: mstr(14, 0, 24)},
+			// streams whose dictionary carries the type tags of a stream kind
+			// that has an exemption from encryption (the document-level
+			// metadata stream under /EncryptMetadata false) without being the
+			// exempt stream itself: component-level metadata and an embedded
+			// file.  See taggedKinds.
+			{name: "component metadata stream (Metadata/XML, unfiltered)", stream: &streamSpec{dict: pdf.Dict{"Type": pdf.Name("Metadata"), "Subtype": pdf.Name("XML"), "Note": mstr(15, 0, 24)}, body: marker(15, 9, 200)}},
+			{name: "component metadata stream (Metadata/XML, Flate)", stream: &streamSpec{dict: pdf.Dict{"Type": pdf.Name("Metadata"), "Subtype": pdf.Name("XML")},
+				body: append(bytes.Repeat([]byte("<rdf:li>compressible packet text</rdf:li> "), 30), marker(16, 9, 40)...), filters: []pdf.Filter{pdf.FilterCompress{}}}},
+			{name: "stream tagged Metadata without Subtype", stream: &streamSpec{dict: pdf.Dict{"Type": pdf.Name("Metadata")}, body: marker(17, 9, 120)}},
+			{name: "stream tagged EmbeddedFile", stream: &streamSpec{dict: pdf.Dict{"Type": pdf.Name("EmbeddedFile"), "Params": pdf.Dict{"CheckSum": mstr(18, 0, 16)}}, body: marker(18, 9, 120)}},
+			{name: "component metadata written by MetadataStream.Embed", embedTitle: string(marker(19, 0, 32))},
 		},
 		title:    string(marker(20, 0, 24)),
 		xmpTitle: string(marker(21, 0, 32)),
 	}
+}
+
+// taggedKinds names the streams of the full graph whose dictionary carries
+// the type tags of a stream kind that can be exempt from encryption, without
+// being the exempt stream itself, and the ways in which they are written.
+var taggedKinds = []string{
+	"/Type /Metadata /Subtype /XML, unfiltered, through OpenStream (and through Put as *pdf.Stream in the write orders)",
+	"/Type /Metadata /Subtype /XML, FilterCompress, through OpenStream",
+	"/Type /Metadata (no /Subtype), unfiltered",
+	"/Type /EmbeddedFile, unfiltered",
+	"component-level XMP packet through ResourceManager.Embed(MetadataStream) (PDF >= 1.4)",
+}
+
+// streamTag names the /Type[/Subtype] tag of a model stream dictionary.
+func streamTag(d pdf.Dict) string {
+	t, _ := d["Type"].(pdf.Name)
+	if t == "" {
+		return ""
+	}
+	if st, _ := d["Subtype"].(pdf.Name); st != "" {
+		return string(t) + "/" + string(st)
+	}
+	return string(t)
 }
 
 // numGraph is the (smaller) graph of the object-number space: its first five
@@ -203,7 +243,7 @@ func (g *graph) streams() (out []int) {
 
 func (g *graph) directs() (out []int) {
 	for i, it := range g.items {
-		if !it.compressed && it.stream == nil {
+		if !it.compressed && it.stream == nil && it.embedTitle == "" {
 			out = append(out, i)
 		}
 	}
@@ -462,6 +502,34 @@ func write(g *graph, c *Case) (wr *written, stage string, err error) {
 	}
 	putItem := func(i int) (string, error) {
 		it := g.items[i]
+		if it.embedTitle != "" {
+			// component-level metadata through the library's own embedder
+			// (XMP streams exist from PDF 1.4 on; below that nothing is written)
+			if v < pdf.V1_4 {
+				wr.roles[i] = "not-written"
+				return "", nil
+			}
+			packet := xmp.NewPacket()
+			dc := &xmp.DublinCore{}
+			dc.Title.Set(language.Und, it.embedTitle)
+			if err := packet.Set(dc); err != nil {
+				return "case", err
+			}
+			rm := pdf.NewResourceManager(w)
+			emb, err := rm.Embed(&pdf.MetadataStream{Data: packet})
+			if err != nil {
+				return "embed-metadata", err
+			}
+			ref, ok := emb.(pdf.Reference)
+			if !ok {
+				return "embed-metadata", fmt.Errorf("MetadataStream.Embed returned %T", emb)
+			}
+			wr.refs[i] = ref
+			if err := rm.Close(); err != nil {
+				return "embed-metadata", err
+			}
+			return "", nil
+		}
 		ref := alloc(i)
 		if it.stream != nil {
 			s := it.stream
@@ -498,6 +566,13 @@ func write(g *graph, c *Case) (wr *written, stage string, err error) {
 				}
 				if ord.Split < len(data) {
 					if _, err := body.Write(data[ord.Split:]); err != nil {
+						return "stream-write", err
+					}
+				}
+			} else if c.IO > 0 {
+				// the body in pieces of c.IO bytes
+				for p := 0; p < len(data); p += c.IO {
+					if _, err := body.Write(data[p:min(p+c.IO, len(data))]); err != nil {
 						return "stream-write", err
 					}
 				}
